@@ -26,6 +26,8 @@ class XMLReader(TextToModel):
         self.name_feature: dict[str, Feature] = {}
 
     def transform(self) -> FeatureModel:
+        # Every call reads the document afresh: features seen by an earlier call are not duplicates
+        self.name_feature = {}
         rootcounter = 1
         tree = ElementTree.parse(self.path)
         xml_root = tree.getroot()
